@@ -327,8 +327,8 @@ Qed.
 Lemma escape_hd_not_dq s : match escape s with y :: _ => y <> c_dq | [] => True end.
 Proof. pose proof (hd_esc s) as H. unfold escape. destruct (flat_map esc_chr s); [exact I|exact H]. Qed.
 
-Lemma unescape_tok_escape s : escape_safe s = true -> unescape_tok (escape s) = s.
-Proof. intros H. unfold unescape_tok. rewrite unescape_opt_spec, (unescape_escape _ H). reflexivity. Qed.
+Lemma unescape_tok_escape s : unescape_tok (escape s) = s.
+Proof. unfold unescape_tok. rewrite unescape_opt_spec, unescape_escape_all. reflexivity. Qed.
 
 (* ---- alias table ---------------------------------------------------------------------------------------------------------- *)
 Lemma alias_of_none_hd c r :
